@@ -9,6 +9,7 @@ import (
 	"runtime/debug"
 	"sort"
 	"strings"
+	"sync/atomic"
 	"time"
 
 	"evylang.dev/evy/pkg/bytecode"
@@ -26,33 +27,65 @@ type VMResult struct {
 	Globals    map[string]any
 	SP         int
 	BC         *bytecode.Bytecode
-	Hang       bool
+	Hang       bool  // the instruction budget was exceeded
+	Slow       bool  // aborted after the wall-time limit, inside the budget: inconclusive
+	Steps      int64 // instructions executed
+	Budget     int64
 }
 
 // Leaked counts VM runs that were abandoned because they did not finish.
 var Leaked int
 
-// RunVM compiles and runs prog on the VM inside recover. The VM has no
-// instruction budget, so the run happens in a goroutine that is abandoned
-// (Hang is set) if it does not finish in time.
-func RunVM(prog *parser.Program) *VMResult {
+// RunVM compiles and runs prog on the VM inside recover, with an instruction
+// budget (hook VerifSetBudget) derived from the number of evaluation steps the
+// evaluator needed for the same program (evalSteps < 0: unknown, a large fixed
+// budget). Exceeding the budget sets Hang: a deterministic verdict that does not
+// depend on the load of the machine. A run that stays inside the budget but takes
+// longer than 10 s of wall time is aborted through the hook and marked Slow,
+// which callers count and skip, never report.
+func RunVM(prog *parser.Program, evalSteps int) *VMResult {
+	budget := int64(100_000_000)
+	if evalSteps >= 0 {
+		budget = 200_000 + 2_000*int64(evalSteps)
+	}
+	var abort atomic.Bool
 	ch := make(chan *VMResult, 1)
-	go func() { ch <- runVM(prog) }()
+	go func() { ch <- runVM(prog, budget, &abort) }()
 	select {
 	case r := <-ch:
 		return r
-	case <-time.After(20 * time.Second):
+	case <-time.After(10 * time.Second):
+	}
+	abort.Store(true)
+	select {
+	case r := <-ch:
+		if !r.Hang {
+			r.Slow = true
+		}
+		return r
+	case <-time.After(30 * time.Second):
 		Leaked++
-		return &VMResult{Hang: true}
+		return &VMResult{Slow: true}
 	}
 }
 
-func runVM(prog *parser.Program) (res *VMResult) {
+func runVM(prog *parser.Program, budget int64, abort *atomic.Bool) (res *VMResult) {
 	res = &VMResult{}
+	var vm *bytecode.VM
 	defer func() {
+		if vm != nil {
+			res.Steps = vm.VerifSteps()
+		}
 		if r := recover(); r != nil {
-			res.Panic = fmt.Sprint(r)
-			res.Stack = string(debug.Stack())
+			switch r := r.(type) {
+			case bytecode.VerifBudgetExceeded:
+				res.Hang, res.Steps = true, r.Steps
+			case bytecode.VerifAborted:
+				res.Slow, res.Steps = true, r.Steps
+			default:
+				res.Panic = fmt.Sprint(r)
+				res.Stack = string(debug.Stack())
+			}
 		}
 	}()
 	c := bytecode.NewCompiler()
@@ -61,7 +94,8 @@ func runVM(prog *parser.Program) (res *VMResult) {
 		return res
 	}
 	res.BC = c.Bytecode()
-	vm := bytecode.NewVM(res.BC)
+	vm = bytecode.NewVM(res.BC)
+	vm.VerifSetBudget(budget, abort)
 	res.RunErr = vm.Run()
 	res.Globals = vm.VerifGlobals(c)
 	res.SP = vm.VerifSP()
